@@ -19,6 +19,9 @@ from harness.core import Prop, outcome, unrat
 
 EPS = 2.0 ** -52
 REL = 1e-9
+EPS32 = 2.0 ** -23  # images held as float32: NumPy computes means, products and standard deviations in float32
+REL32 = 2e-5
+DT = {"f8": np.float64, "f4": np.float32, "i8": np.int64, "i4": np.int32, "i2": np.int16, "u2": np.uint16, "u1": np.uint8}
 # Behaviour the property text does not reach (the value returned as "probability" for n = 0 shuffles) is compared with
 # the model and the outcome recorded as a feature; it is judged (impl-vs-model) only with this switch on.
 JUDGE_OUTSIDE_PROPERTY = False
@@ -331,10 +334,19 @@ class C14(Prop):
             shape = [rng.randint(2, 40)] if ndim == 1 else [rng.randint(1, 8), rng.randint(2, 8)]
             n = int(np.prod(shape))
             x, y, style = self.gen_pair(rng, n)
-            neg = rng.random() < 0.2
-            offx = rng.choice([0, 0, 0, 100, 4096]) if not neg else -rng.choice([3, 30])
-            offy = rng.choice([0, 0, 0, 100, 4096]) if not neg else -rng.choice([3, 30])
-            den = rng.choice([1, 1, 4, 8])
+            # element type of the two images (drawn first: integer types want integer values that fit)
+            dtype = None
+            if rng.random() < 0.4:
+                d = rng.choice(["f4", "f4", "f4", "i8", "i4", "i2", "u2", "u1"])
+                dtype = [d, d] if rng.random() < 0.6 else [d, rng.choice(["f8", "f4", "i8", "i4", "u2", "u1"])]
+                if rng.random() < 0.5:
+                    dtype.reverse()
+            ints = dtype is not None and any(d[0] in "iu" for d in dtype)
+            neg = rng.random() < 0.2 and not (dtype is not None and any(d[0] == "u" for d in dtype))
+            offs = [0, 0, 0, 100] if ints else [0, 0, 0, 100, 4096]
+            offx = rng.choice(offs) if not neg else -rng.choice([3, 30])
+            offy = rng.choice(offs) if not neg else -rng.choice([3, 30])
+            den = 1 if ints else rng.choice([1, 1, 4, 8])
 
             def thr(vals, off):
                 k = rng.choice(["none", "none", "zero", "min", "value", "between", "above"])
@@ -348,10 +360,16 @@ class C14(Prop):
                 return [q.numerator, q.denominator]
 
             case = {"kind": "coeff", "shape": shape, "x": x, "y": y, "den": den, "offx": offx, "offy": offy,
-                    "spow": rng.choice([0, 0, 0, -10, 7, 20]), "tx": thr(x, offx), "ty": thr(y, offy),
+                    "spow": rng.choice([0, 0, 0, 1, 7] if ints else [0, 0, 0, -10, 7, 20]), "tx": thr(x, offx), "ty": thr(y, offy),
                     "a_pow": rng.choice([-3, 0, 1, 5]), "b": rng.choice([0, 1, -7, 1000]), "gen": [style]}
-            if rng.random() < 0.3:  # extreme units: image x times 2^ex, image y times 2^ey (drawn last: older cases unchanged)
+            if dtype is not None:
+                case["dtype"] = dtype
+            elif rng.random() < 0.4:  # extreme units: image x times 2^ex, image y times 2^ey
                 case["xpow"] = self.gen_xpow(rng)
+            # memory layout of the two images, independently; exact zeros as negative zeros
+            lays = ["C", "C", "C", "F", "strided", "strided0", "transposed"]
+            case["lay"] = [rng.choice(lays), rng.choice(lays)]
+            case["negzero"] = rng.random() < 0.1
             return case
         if stream == "shuffle":
             ndim = rng.choice([1, 2, 2, 3, 3, 4])
@@ -704,15 +722,48 @@ class C14(Prop):
             if not extreme:
                 raise core.InternalError("affine image not exact")
             return beyond()
-        snap = [v.copy() for v in (x, y, x2, y2)]
+        # element type and memory layout ("all image pairs"): the same exact values as float32 or integer arrays and as
+        # Fortran-ordered, strided or transposed views.  A type is used only when it holds the values exactly (float32: also the
+        # threshold its image is compared with); otherwise the image stays float64
+        dts = list(case.get("dtype") or ["f8", "f8"])
+
+        def holds(arr, d, thr):
+            t = np.dtype(DT.get(d, np.float64))
+            if t == np.float64:
+                return True
+            if t.kind == "f":
+                c = arr.astype(t)
+                return bool(np.all(np.isfinite(c)) and np.array_equal(c.astype(np.float64), arr) and
+                            (thr is None or float(np.float32(thr)) == thr))
+            info = np.iinfo(t)
+            return bool(np.all(arr == np.rint(arr)) and arr.min() >= info.min and arr.max() <= info.max)
+
+        dts = ["f8" if extreme or not holds(v, d, t) else d for v, d, t in ((x, dts[0], tx), (y, dts[1], ty))]
+        xa, ya = x.astype(DT[dts[0]]), y.astype(DT[dts[1]])
+        negzero = bool(case.get("negzero")) and not extreme
+        if negzero:  # exact zeros as negative zeros (images and thresholds)
+            for v in (xa, ya):
+                if v.dtype.kind == "f":
+                    v[v == 0] = -0.0
+            tx, ty = (-0.0 if tx == 0 else tx), (-0.0 if ty == 0 else ty)
+        lays = list(case.get("lay") or ["C", "C"])
+        xa, ya = with_layout(xa, lays[0]), with_layout(ya, lays[1])
+        if not (np.array_equal(xa.astype(np.float64), x) and np.array_equal(ya.astype(np.float64), y)):
+            raise core.InternalError("typed / laid out image differs from the exact values")
+        f4x, f4y = dts[0] == "f4", dts[1] == "f4"
+        # integer images: `x * y` is formed in the integer type; where a product does not fit, NumPy wraps around silently.
+        # That r is recorded (feature), not judged: see notes/EC14.md (candidate finding)
+        rt = np.result_type(xa.dtype, ya.dtype)
+        wraps = rt.kind in "iu" and any(not (np.iinfo(rt).min <= int(u) * int(v) <= np.iinfo(rt).max) for u, v in zip(x.ravel(), y.ravel()))
+        snap = [v.copy() for v in (xa, ya, x2, y2)]
         try:
-            impl = {"icq": float(colocal.li_icq(x, y)), "r": float(colocal.pearsonr(x, y)), "r_yx": float(colocal.pearsonr(y, x)),
-                    "r_ax": float(colocal.pearsonr(x2, y)), "r_ay": float(colocal.pearsonr(x, y2))}
-            m = colocal.manders(x, y, tx, ty)
+            impl = {"icq": float(colocal.li_icq(xa, ya)), "r": float(colocal.pearsonr(xa, ya)), "r_yx": float(colocal.pearsonr(ya, xa)),
+                    "r_ax": float(colocal.pearsonr(x2, ya)), "r_ay": float(colocal.pearsonr(xa, y2))}
+            m = colocal.manders(xa, ya, tx, ty)
             impl["m1"], impl["m2"] = float(m[0]), float(m[1])
         except Exception as e:
             impl = {"raises": type(e).__name__, "msg": str(e)[:200]}
-        impl["args_unchanged"] = all(np.array_equal(u, v) for u, v in zip((x, y, x2, y2), snap))
+        impl["args_unchanged"] = all(np.array_equal(u, v) and u.dtype == v.dtype for u, v in zip((xa, ya, x2, y2), snap))
         orat = lambda v: None if v is None else core.rat(v)
         rep = ctx.driver.call("c14.coeff", x=[core.rat(v) for v in xq], y=[core.rat(v) for v in yq], tx=orat(txq), ty=orat(tyq))
         if extreme:
@@ -731,11 +782,22 @@ class C14(Prop):
         tol = r_tol(g("mean_xy"), g("mean_x"), g("mean_y"), vx, vy)
         tol_ax = r_tol(af * g("mean_xy") + bfx * g("mean_y"), af * g("mean_x") + bfx, g("mean_y"), af * af * vx, vy)
         tol_ay = r_tol(af * g("mean_xy") + bfy * g("mean_x"), g("mean_x"), af * g("mean_y") + bfy, vx, af * af * vy)
+        if f4x or f4y:
+            # float32 arithmetic inside NumPy: the same bound with the float32 unit roundoff, on the absolute values
+            # (E|xy| + E|x| E|y|): an r that involves a float32 image is compared at this tolerance
+            n_ = len(xq)
+            exy, eax, eay = sum(abs(u * v) for u, v in zip(xq, yq)) / n_, sum(abs(u) for u in xq) / n_, sum(abs(v) for v in yq) / n_
+            t32 = lambda axy, ax_, ay_, wx, wy: REL32 + 64 * EPS32 * (float(axy) + float(ax_) * float(ay_)) / math.sqrt(float(wx) * float(wy))
+            tol = t32(exy, eax, eay, vx, vy)
+            if f4y:
+                tol_ax = t32(af * exy + abs(bfx) * eay, af * eax + abs(bfx), eay, af * af * vx, vy)
+            if f4x:
+                tol_ay = t32(af * exy + abs(bfy) * eax, eax, af * eay + abs(bfy), vx, af * af * vy)
         sums_ok = g("sum_x") != 0 and g("sum_y") != 0
         nonneg = min(xq) >= 0 and min(yq) >= 0
         scale = max(max(abs(v) for v in xq), max(abs(v) for v in yq))
         devs = [unrat(rep[k]) for k in ("min_dev_x", "min_dev_y") if rep[k] is not None]
-        icq_und = any(d < Fraction(1, 10 ** 9) * scale for d in devs)
+        icq_und = any(d < (Fraction(1, 10 ** 4) if f4x or f4y else Fraction(1, 10 ** 9)) * scale for d in devs)
         xs_und = False
         if extreme:
             dx, dy = g("min_dev_x"), g("min_dev_y")  # present: neither image is constant
@@ -755,11 +817,14 @@ class C14(Prop):
             if "raises" in impl or not impl["args_unchanged"]:
                 return False
             ok = core.close(impl["icq"], ref["icq"], rel=0.0, abs_=1e-12)
-            ok = ok and abs(impl["r"] - ref["r"]) <= tol and abs(impl["r_yx"] - ref["r"]) <= tol
+            if not wraps:
+                ok = ok and abs(impl["r"] - ref["r"]) <= tol and abs(impl["r_yx"] - ref["r"]) <= tol
+                ok = ok and all(abs(impl[k]) <= 1 + tol for k in ("r", "r_yx"))
             ok = ok and abs(impl["r_ax"] - ref["r"]) <= tol_ax and abs(impl["r_ay"] - ref["r"]) <= tol_ay
-            ok = ok and all(abs(impl[k]) <= 1 + t for k, t in (("r", tol), ("r_yx", tol), ("r_ax", tol_ax), ("r_ay", tol_ay)))
+            ok = ok and all(abs(impl[k]) <= 1 + t for k, t in (("r_ax", tol_ax), ("r_ay", tol_ay)))
             if sums_ok:
-                ok = ok and core.close(impl["m1"], ref["m1"], rel=REL, abs_=1e-15) and core.close(impl["m2"], ref["m2"], rel=REL, abs_=1e-15)
+                ok = ok and core.close(impl["m1"], ref["m1"], rel=REL32 if f4x else REL, abs_=1e-15)
+                ok = ok and core.close(impl["m2"], ref["m2"], rel=REL32 if f4y else REL, abs_=1e-15)
                 if nonneg:
                     ok = ok and all(-1e-12 <= impl[k] <= 1 + 1e-12 for k in ("m1", "m2"))
             return ok
@@ -776,6 +841,16 @@ class C14(Prop):
             feats.add("zero-sum(no manders)")
         if case["spow"]:
             feats.add("scaled")
+        feats.add("dtype:" + (dts[0] if dts[0] == dts[1] else "mixed(" + "/".join(dts) + ")"))
+        eff = [("C" if (l == "transposed" and len(shape) != 2) or l not in ("F", "strided", "strided0", "transposed") else l) for l in lays]
+        feats.add("coeff-layout:" + ("C" if eff == ["C", "C"] else "/".join(eff)))
+        if eff[0] != eff[1]:
+            feats.add("coeff-layouts-differ")
+        if negzero and ((0 in xq and xa.dtype.kind == "f") or (0 in yq and ya.dtype.kind == "f") or tx == 0 or ty == 0):
+            feats.add("negative-zero")
+        if wraps:
+            feats.add("dtype:integer-product-wraps(r recorded only): r " +
+                      ("as if exact" if "raises" not in impl and abs(impl["r"] - r) <= tol else "DIFFERS"))
         if case["offx"] or case["offy"]:
             feats.add("offset")
         feats.add("r:" + ("+1" if abs(r - 1) < 1e-12 else "-1" if abs(r + 1) < 1e-12 else "0" if cov == 0 else "other"))
@@ -987,18 +1062,29 @@ class C14(Prop):
 
     def judge_inner(self, spy, ctx, given_mask, y0, n, **kw):
         """the calls pearsonr_probablity made to shuffle_blocks (each an observation point of its own): every one against
-        the shuffle specification, for the array contents at the time of that call; and how they hang together"""
+        the shuffle specification, for the array contents at the time of that call; how they hang together; and - "obtained
+        over the same pixels as the reported r" - that no call moves a pixel outside the blocks selected by the mask the
+        routine was GIVEN (a call that is handed another mask, e.g. a stale copy, is judged against the given one as well)"""
+        import copy
+
         js = [self.judge(o, ctx, **kw) for o in spy.obs]
         judged = [j for j in js if j is not None]
         ones = np.ones(y0.shape, dtype=bool) if given_mask is None else (given_mask != 0)
         chain = len(spy.obs) == n and len(judged) == n
-        prev = y0
-        for o in spy.obs:
-            chain = chain and o.res is not None and o.x0.shape == prev.shape and bool(np.array_equal(o.x0, prev)) and \
-                o.m0 is not None and o.m0.shape == ones.shape and bool(np.array_equal(o.m0 != 0, ones))
+        prev, inside = y0, True
+        for o, j in zip(spy.obs, js):
+            same_mask = o.m0 is not None and o.m0.shape == ones.shape and bool(np.array_equal(o.m0 != 0, ones))
+            chain = chain and o.res is not None and o.x0.shape == prev.shape and bool(np.array_equal(o.x0, prev)) and same_mask
             prev = o.res
-        return {"judged": judged, "spec_ok": all(j["spec_ok"] for j in judged), "model_ok": all(j["model_ok"] for j in judged),
-                "chain": bool(chain), "first_bad": next((j["impl"] for j in judged if not j["spec_ok"]), None)}
+            if j is not None and j["good"] and not same_mask and list(ones.shape) == o.shape:
+                o2 = copy.copy(o)
+                o2.m0 = ones
+                j2 = self.judge(o2, ctx)
+                inside = inside and (j2 is None or bool(j2["impl"]["spec_verdicts"].get("outside_fixed")))
+        return {"judged": judged, "spec_ok": all(j["spec_ok"] for j in judged) and inside, "model_ok": all(j["model_ok"] for j in judged),
+                "chain": bool(chain), "inside_given_mask": inside,
+                "first_bad": next((j["impl"] for j in judged if not j["spec_ok"]), None if inside else "a shuffle moved pixels outside the blocks "
+                                  "selected by the mask given to pearsonr_probablity")}
 
     def judge_prob(self, ctx, x, y, mask, block, partial, n, rec, feats):
         """one call of pearsonr_probablity on the given array objects, against the Lean model and specification"""
@@ -1333,6 +1419,9 @@ class C14(Prop):
             for k in ("tx", "ty"):
                 if case[k] is not None:
                     yield {**case, k: None}
+            for k, dflt in (("dtype", ["f8", "f8"]), ("lay", ["C", "C"]), ("negzero", False)):
+                if case.get(k, dflt) != dflt:
+                    yield {**case, k: dflt}
             if case.get("xpow"):
                 yield {k: v for k, v in case.items() if k != "xpow"}
                 for i in (0, 1):
